@@ -677,18 +677,22 @@ class PropertyFilter:
             return self.name not in comp
 
         try:
-            prop = comp[self.name]
+            props = comp[self.name]
         except KeyError:
             return False
 
-        if self.time_range and not self.time_range.match(prop, tzify):
-            return False
+        # A property that occurs more than once (ATTENDEE, CATEGORIES, ...)
+        # comes back as a list; the filter matches if one instance does.
+        if not isinstance(props, list):
+            props = [props]
 
-        for child in self.children:
-            if not child.match(prop):
-                return False
+        for prop in props:
+            if self.time_range and not self.time_range.match(prop, tzify):
+                continue
+            if all(child.match(prop) for child in self.children):
+                return True
 
-        return True
+        return False
 
     def match_indexes(self, indexes: SubIndexDict, tzify: TzifyFunction) -> bool:
         myindex = "P=" + self.name
